@@ -129,6 +129,8 @@ CURATED = {
     'k_wide': C('Resumable', L, L, L, L, L, L, L, C('Composite', L, L, L, L, L), L),
     # single composite region (queue capacity 1)
     'k_single': C('Composite', L, L, L),
+    # orthogonal region wider than 8 (two bit units) followed by orthogonal siblings: unit offsets of later regions
+    'k_ortho_wide9': O(O(L, L, L, L, L, L, L, L, C('Composite', L, L)), O(C('Resumable', L, L), C('Composite', L, L)), C('Composite', L, O(L, L))),
     # width-1 regions (no save/load)
     'k_width1': C('Composite', C('Composite', L), C('Resumable', C('Composite', L, L)), L),
 }
